@@ -3,6 +3,7 @@ CONSTANTS
   Groups = {"registrar"}
   Pinned = FALSE
   InPlace = TRUE
+  Reuse = FALSE
   MaxPar = 2
 INVARIANTS TypeOK Linearizable Disciplined
 CONSTRAINT Bounded
